@@ -51,7 +51,7 @@ def distinct_labels(ctx, env):
                                             z3.Select(sp, i) != z3.Select(sp, j))))
 
 
-def install_solver_calls(interp, e, *, locate_kinds):
+def install_solver_calls(interp, e, *, locate_kinds, solve_t_qualname='fsic.core.models.BaseModel.solve_t', extra=()):
     """Call contracts for solve_t and the span look-up; records the ghost call log."""
     ctx = interp.ctx
     g = ctx.ghost
@@ -65,8 +65,11 @@ def install_solver_calls(interp, e, *, locate_kinds):
         for k in OPTS:
             if k in kwargs:
                 ok.append(V.z3_of(kwargs[k]) == e['opts'][k])
-        extra = set(kwargs) - set(OPTS)
-        ok.append(z3.BoolVal(not extra))
+        # further keywords the entry point forwards as they are (the linker's `submodels` selection)
+        for k_ in extra:
+            ok.append(z3.BoolVal(k_ in kwargs and kwargs[k_] is e['extra'][k_]))
+        unexpected = set(kwargs) - set(OPTS) - set(extra)
+        ok.append(z3.BoolVal(not unexpected))
         ctx.prove(z3.And(*ok), 'solve_t:same_options_as_the_caller', 'pre-at-call', line=getattr(node, 'lineno', 0))
         ctx.prove(z3.And(t >= -env.n, t < env.n), 'solve_t:position_inside_span', 'pre-at-call')
         k = g['ncalls']
@@ -111,7 +114,7 @@ def install_solver_calls(interp, e, *, locate_kinds):
         return SInt(pos)
 
     interp.registry.set_calls({
-        'fsic.core.models.BaseModel.solve_t': solve_t,
+        solve_t_qualname: solve_t,
         'fsic.core.containers.VectorContainer._locate_period_in_span': locate,
         'fsic.core.containers.VectorContainer.__getattr__': getattr_contract,
     })
@@ -161,16 +164,21 @@ class SolveContract(FunctionContract):
     qualname = 'fsic.core.interfaces.SolverMixin.solve'
     props = ('C05', 'C03', 'C04')
     required_covers = ('returned', 'value-error', 'keyerror', 'empty-span', 'solve_t-raised')
+    model_cls = BaseModel
+    solve_t_qualname = 'fsic.core.models.BaseModel.solve_t'
+    extra_kwargs = ()
+    prevalidates_labels = True       # solve() rejects a start/end label without a single position before anything is solved
 
     def scenarios(self):
         return ['default-range', 'start-end', 'start-only', 'end-only', 'empty-span']
 
     def setup(self, interp, scenario):
         ctx = interp.ctx
-        env = make_model(interp, BaseModel, with_lags=True)
-        e = {'env': env, 'opts': fresh_options(ctx), 'scenario': scenario}
+        env = make_model(interp, self.model_cls, with_lags=True)
+        e = {'env': env, 'opts': fresh_options(ctx), 'scenario': scenario, 'extra': {k: object() for k in self.extra_kwargs}}
         distinct_labels(ctx, env)
         kw = wrap_options(e['opts'])
+        kw.update(e['extra'])
         e['start'] = e['end'] = None
         if scenario == 'empty-span':
             # n == 0 contradicts make_model's n >= 1: rebuild the span as empty
@@ -185,7 +193,8 @@ class SolveContract(FunctionContract):
         if scenario in ('start-end', 'end-only'):
             e['end'] = ctx.fresh('end', STR)
             kw['end'] = SStr(e['end'])
-        install_solver_calls(interp, e, locate_kinds='all' if scenario in ('start-end', 'start-only', 'end-only') else 'int')
+        install_solver_calls(interp, e, locate_kinds='all' if (scenario in ('start-end', 'start-only', 'end-only') and self.prevalidates_labels) else 'int',
+                             solve_t_qualname=self.solve_t_qualname, extra=self.extra_kwargs)
         self.loops = {R.body_calls('solve_t'): self._loop(e)}
         interp.registry.set_loops(self.qualname, self.loops)
         e['inputs'] = dict(e['opts'], n=env.n, lags=env.lags, leads=env.leads)
@@ -244,7 +253,7 @@ class SolveContract(FunctionContract):
                 fr.locals[nme] = SOptList(lst.length, kind, ctx.fresh(role + '.data', z3.ArraySort(INT, V._SORT_OF_KIND[kind])),
                                           ctx.fresh(role + '.isset', z3.ArraySort(INT, BOOL)))
 
-        return LoopSpec(invariant=inv, havoc=havoc, props=('C05',))
+        return LoopSpec(invariant=inv, havoc=havoc, props=(('C05',) if 'C05' in self.props else tuple(self.props)))
 
     def post(self, interp, scenario, call, out):
         ctx = interp.ctx
@@ -333,6 +342,22 @@ class SolveContract(FunctionContract):
         s, _ = self._bounds(e, g)
         j = z3.Int('j!log')
         ctx.prove(z3.ForAll([j], z3.Implies(z3.And(0 <= j, j < k), z3.Select(g['Lt'], j) == s + j)), label, 'ensures')
+
+
+class LinkerSolveContract(SolveContract):
+    """BaseLinker.solve: the same period loop over the linker's own single-period solver, with the `submodels` selection forwarded as given.
+    (The linker does not pre-validate start/end labels; its contract is stated for labels that have a position.)"""
+    qualname = 'fsic.core.linkers.BaseLinker.solve'
+    props = ('C08',)
+    required_covers = ('returned', 'value-error', 'empty-span', 'solve_t-raised')
+    solve_t_qualname = 'fsic.core.linkers.BaseLinker.solve_t'
+    extra_kwargs = ('submodels',)
+    prevalidates_labels = False
+
+    @property
+    def model_cls(self):
+        from fsic.core.linkers import BaseLinker
+        return BaseLinker
 
 
 CONTRACTS = [SolvePeriodContract(), SolveContract()]
